@@ -197,3 +197,59 @@ func verifStackHas2(a, b string) bool {
 	}
 	return false
 }
+
+// C13 monitor: the last subscriber of a key closes (Registry.Unmonitor removes the watcher)
+// while the watch goroutine of that key is inside load() (compaction error, Get fails once:
+// the code's own 1 s cool-down).  A subscriber that comes afterwards must see the registered
+// values.
+func TestVerifC13UnmonitorDuringLoad(t *testing.T) {
+	out := os.Getenv("VERIF_OUT")
+	if out == "" {
+		t.Skip("no VERIF_OUT")
+	}
+	host := "verif-c13-unmonitor-load"
+	etcd := internal.VerifNewEtcd(host)
+	subA, err := NewSubscriber([]string{host}, "svc")
+	if err != nil {
+		t.Fatal(err)
+	}
+	tag := internal.VerifTag("svc", false)
+	etcd.VerifBind(host)
+	res := map[string]any{"id": 0}
+	etcd.VPut("svc/k1", "v1")
+	res["quiet0"] = etcd.Quiesce([]string{tag}, 5*time.Second)
+	res["valuesA"] = verifSorted(subA.Values())
+	etcd.VPause()
+	etcd.VPut("svc/k2", "v2")
+	etcd.VPut("svc/k3", "v3")
+	etcd.VCompact()
+	etcd.VGetErrsTag(tag, 1)
+	etcd.VResume()
+	for i := 0; i < 5000 && !verifStackHas2(".(*cluster).load(", "time.Sleep"); i++ {
+		time.Sleep(200 * time.Microsecond)
+	}
+	res["loading"] = verifStackHas2(".(*cluster).load(", "time.Sleep")
+	subA.Close() // the watcher of "svc" is removed
+	time.Sleep(1500 * time.Millisecond)
+	res["stateBetween"] = internal.VerifClusterState(host)
+	subB, err := NewSubscriber([]string{host}, "svc")
+	if err != nil {
+		t.Fatal(err)
+	}
+	res["quiet1"] = etcd.QuiesceLoose([]string{tag}, 4*time.Second)
+	res["valuesB"] = verifSorted(subB.Values())
+	etcd.VPut("svc/k4", "v4")
+	res["quiet2"] = etcd.QuiesceLoose([]string{tag}, 4*time.Second)
+	res["valuesB2"] = verifSorted(subB.Values())
+	res["live"] = etcd.Live()
+	f, err := os.Create(out)
+	if err != nil {
+		t.Fatal(err)
+	}
+	w := bufio.NewWriter(f)
+	b, _ := json.Marshal(res)
+	w.Write(b)
+	w.WriteByte('\n')
+	w.Flush()
+	f.Close()
+}
